@@ -6,7 +6,10 @@ import (
 	"go/token"
 	"go/types"
 	"math"
+	"os"
+	"runtime/debug"
 	"strings"
+	"time"
 
 	"golang.org/x/tools/go/ssa"
 )
@@ -30,6 +33,7 @@ type Exec struct {
 	harness     string
 	globalInit  map[string]func(ex *Exec, st *State, g *ssa.Global) Value
 	stats       struct{ forks, feas, paths int }
+	fallbackBudget time.Duration
 }
 
 type Obligation struct {
@@ -39,6 +43,7 @@ type Obligation struct {
 	Model   []InputVal
 	Size    int
 	PathID  int
+	By      string // solver that decided it when not the primary
 }
 
 type InputVal struct {
@@ -48,7 +53,7 @@ type InputVal struct {
 }
 
 func NewExec(prog *ssa.Program, solver *Solver) *Exec {
-	ex := &Exec{prog: prog, solver: solver, unwind: 12, maxSteps: 400000, maxStates: 20000,
+	ex := &Exec{prog: prog, solver: solver, fallbackBudget: 60 * time.Second, unwind: 12, maxSteps: 400000, maxStates: 20000,
 		fnSeen: map[string]bool{}, stubSeen: map[string]bool{}}
 	ex.stubs = defaultStubs()
 	return ex
@@ -135,6 +140,9 @@ func (ex *Exec) push(st *State) { ex.work = append(ex.work, st) }
 // ---------- panics ----------
 
 func (ex *Exec) raise(st *State, val Value, runtime string) {
+	if verbose {
+		fmt.Fprintf(os.Stderr, "[panic] %s %s%s\n", runtime, fmtValue(val), ex.where(st))
+	}
 	st.panics = append(st.panics, &PanicInfo{Val: val, Runtime: runtime})
 	fr := st.top()
 	fr.mode = modeUnwind
@@ -203,7 +211,11 @@ func (ex *Exec) runState(st *State) {
 				st.msg = e.msg + ex.where(st)
 				return
 			}
-			panic(r)
+			st.status = "unsupported"
+			st.msg = fmt.Sprintf("engine: %v", r) + ex.where(st)
+			if os.Getenv("GOSYM_TRACE") != "" {
+				debug.PrintStack()
+			}
 		}
 	}()
 	for st.status == "" {
@@ -343,10 +355,7 @@ func (ex *Exec) globalPtr(st *State, g *ssa.Global) Value {
 // defaultGlobal: package-level variables are not initialised (init is not run).  Reading one that the
 // harness did not set is an error unless it is harness-owned (name starts with "vh").
 func (ex *Exec) defaultGlobal(st *State, g *ssa.Global, elem types.Type) Value {
-	if strings.HasPrefix(g.Name(), "vh") || strings.HasPrefix(g.Name(), "VH") {
-		return zeroValue(elem)
-	}
-	return Opaque{ID: "uninit-global:" + g.String(), Typ: elem}
+	return zeroValue(elem)
 }
 
 func (ex *Exec) setReg(st *State, v ssa.Value, val Value) {
@@ -438,9 +447,17 @@ func (ex *Exec) afterRecovered(st *State) {
 func (ex *Exec) step(st *State) {
 	fr := st.top()
 	if fr.ip >= len(fr.blk.Instrs) {
+		if fr.synthetic {
+			ex.ret(st, nil)
+			return
+		}
 		unsupported("fell off block %d of %s", fr.blk.Index, fr.fn)
 	}
 	in := fr.blk.Instrs[fr.ip]
+	if g := ex.needGlobalInit(st, in); g != nil {
+		ex.startGlobalInit(st, g)
+		return
+	}
 	switch x := in.(type) {
 	case *ssa.DebugRef:
 		fr.ip++
